@@ -3,14 +3,17 @@
 Model:   spec/Canon.tla     the canonicalization algorithm of src/abg-ir.cc as a state machine (comparison stack, cycle
                             detection, canonical-type propagation, non-confirmed set, confirm / cancel, the two passes of
                             equals(class_decl)) over ALL type graphs within the bounds and ALL canonicalization orders.
-         Canon.cfg          the algorithm with its two repairs (cycle = the *pair* is on the stack; the class_decl pass only
-                            takes back a canonical type received in this very comparison): CanonIffBisim holds.
-         CanonAsCoded.cfg   the algorithm as coded: TLC refutes CanonIffBisim (design-level counterexamples; the campaign
-                            below confirms them on the real library) -- recorded in the evidence, not hidden.
+         Canon.cfg, CanonPtr.cfg (thorough: CanonThorough*.cfg)   the algorithm with the three repairs the model led to (cycle =
+                            the *pair* is on the stack; the class_decl pass only takes back a canonical type received in this
+                            very comparison; nothing tentative survives the outermost comparison): CanonIffBisim holds.
+         CanonAsCoded.cfg   the algorithm as coded: TLC refutes CanonIffBisim; the counterexample (graph + order) is replayed on
+                            the real library through the IR constructors (harness/canonapi.cc) and must be rejected there too.
+         CanonStale5.cfg    (thorough) cycle test and sticky flag repaired, outermost return as coded: refuted with 5 nodes.
          CanonMutant.cfg    vacuity guard: PropagateDespiteCycle (no dependency tracking, nothing cancelled) must be refuted.
 Replay:  (a) harness/irdump.cc dumps the loaded type graph of every campaign binary (TLC-generated programs of Abi.tla in
              1-3 translation units, hand-written multi-TU sources of render/canon_samples, every graph of Canon.tla rendered
-             as ABIXML); TLC recomputes structural equality on the dump and checks canon(a) = canon(b) <=> Bisim(a, b)
+             as ABIXML, the same graphs built with the IR constructors and canonicalized in a model-chosen order by
+             harness/canonapi.cc); TLC recomputes structural equality on the dump and checks canon(a) = canon(b) <=> Bisim(a, b)
              (spec/CanonTrace.tla).
          (b) hook H5 (when /repo carries it): the canonicalization events of the same loading are validated as steps of
              Canon's algorithm; every top-level Compare result is checked against structural equality.
@@ -74,31 +77,32 @@ def has_h5():
 
 
 # ------------------------------------------------------------------------------------------------ models
-def cfg_text(**kw):
-    d = dict(N=3, MaxKids=2, MaxEdges=6, Kinds="{}", AllowDecl="TRUE", GraphClass='"any"', OrderClass='"any"',
-             CycleCheck='"pair"', Pass2Cancel='"fresh"', PropagateDespiteCycle="FALSE",
-             INV="TypeOK CanonIffBisim PropagatedSound CanonShape NoAbort")
-    d.update(kw)
-    inv = d.pop("INV")
-    return "CONSTANTS\n" + "".join("  %s = %s\n" % kv for kv in d.items()) + "SPECIFICATION Spec\nCHECK_DEADLOCK FALSE\nINVARIANTS %s\n" % inv
-
-
 def models(c):
-    c.model("Canon.tla", "Canon.cfg", timeout=1400)
-    c.model("Canon.tla", "CanonPtr.cfg", timeout=1400)
-    if c.thorough:
-        c.model("Canon.tla", "CanonThorough.cfg", timeout=1400, heap="12g")
-        c.model("Canon.tla", "CanonThoroughPtr.cfg", timeout=1400, heap="12g")
-    # the algorithm as coded, and the mutant: TLC must refute both
-    for cfg, what in (("CanonAsCoded.cfg", "as coded (set-based cycle detection, sticky propagated flag)"),
-                      ("CanonMutant.cfg", "mutant PropagateDespiteCycle")):
-        r = vf.tlc_check("Canon.tla", cfg, timeout=1400, workers=8)
+    """The repaired algorithm must satisfy CanonIffBisim; the algorithm as coded and the mutant must be refuted by TLC."""
+    hold = ["Canon.cfg", "CanonPtr.cfg"] + (["CanonThorough.cfg", "CanonThoroughPtr.cfg", "CanonThorough5.cfg"] if c.thorough else [])
+    refute = [("CanonAsCoded.cfg", "as coded (set-based cycle detection, sticky propagated flag, partial confirm/cancel at the outermost return)"),
+              ("CanonMutant.cfg", "mutant PropagateDespiteCycle")] + \
+             ([("CanonStale5.cfg", "cycle test and sticky flag repaired, outermost return as coded (stale non-confirmed entries)")] if c.thorough else [])
+    w = max(2, vf.JOBS // 4)
+    rs = vf.pmap(lambda cfg: vf.tlc_check("Canon.tla", cfg, timeout=1400, workers=w, heap="6g"), hold + [x[0] for x in refute], jobs=4)
+    for cfg, r in zip(hold, rs):
+        c.cov["states"] += r["distinct"]
+        c.cov["transitions"] += r["generated"]
+        c.cov["models"].append({"spec": "Canon.tla", "cfg": cfg, "distinct": r["distinct"], "generated": r["generated"], "depth": r["depth"],
+                                "holds": r["ok"], "wall_s": round(r["wall"], 1)})
+        if not r["ok"]:
+            import sys
+            sys.stderr.write(r["out"][-4000:])
+            vf.infra("model Canon.tla/%s violates its property (rc=%d): the repaired algorithm must satisfy CanonIffBisim" % (cfg, r["rc"]))
+    for (cfg, what), r in zip(refute, rs[len(hold):]):
+        m = re.search(r"Invariant (\w+) is violated", r["out"])
         c.cov["models"].append({"spec": "Canon.tla", "cfg": cfg, "what": what, "distinct": r["distinct"], "generated": r["generated"],
-                                "depth": r["depth"], "holds": r["ok"], "expected": "refuted", "wall_s": round(r["wall"], 1)})
+                                "depth": r["depth"], "holds": r["ok"], "expected": "refuted", "refuted_invariant": m.group(1) if m else "",
+                                "wall_s": round(r["wall"], 1)})
         if r["ok"]:
             vf.infra("TLC does not refute CanonIffBisim for %s: the invariant is vacuous or the model changed" % what)
-        m = re.search(r"Invariant (\w+) is violated", r["out"])
-        c.cov.setdefault("refuted", {})[cfg] = m.group(1) if m else "?"
+        if cfg == "CanonAsCoded.cfg":
+            c.as_coded_counterexample = counterexample(r["out"])
 
 
 # ------------------------------------------------------------------------------------------------ projection of one loading
@@ -235,6 +239,44 @@ def model_graphs(c, n):
     return graphs[:n], len(graphs)
 
 
+# ------------------------------------------------------------------------------------------------ model behaviours on the real API
+def api_run(canonapi, g, order, case, h5on, scratch):
+    """harness/canonapi.cc: build graph g (struct nodes of Canon.tla) with the IR constructors, canonicalize in `order`."""
+    spec = ";".join(("ab" if nd["d"] else "AB")[nd["n"] - 1] + ":" + ",".join(str(k) for k in nd["kids"]) for nd in g)
+    tr = os.path.join(scratch, case + ".h5.ndjson")
+    if os.path.exists(tr):
+        os.remove(tr)
+    r = vf.run([canonapi, spec, ",".join(str(i) for i in order)], env=vf.henv(scratch, {"ABG_VERIF_CANON_TRACE": tr} if h5on else None), timeout=60)
+    if campaign.retof(r) != "ok" or not r.out.startswith("{"):
+        return None, "canonapi:" + campaign.retof(r)
+    res = json.loads(r.out.splitlines()[0])
+    num = res["numbers"]
+    types = [{"n": num[i], "k": "struct", "name": "AB"[nd["n"] - 1],
+              "sig": "struct %s%s %d" % ("decl " if nd["d"] else "", "AB"[nd["n"] - 1], len(nd["kids"])),
+              "kids": [num[k - 1] for k in nd["kids"]], "canon": num[res["canon"][i] - 1] if res["canon"][i] > 0 else 0,
+              "decl": nd["d"], "def": 0, "skip": ""} for i, nd in enumerate(g)]
+    h5 = None
+    if h5on and os.path.exists(tr):
+        h5 = [e for e in (json.loads(ln) for ln in open(tr) if ln.strip()) if e.get("e") in H5_EVENTS]
+        os.remove(tr)
+    d = {"types": types, "fns": [{"name": "n%d" % i, "t": num[i - 1]} for i in order], "vars": []}
+    return (d, h5, spec), ""
+
+
+def counterexample(out):
+    """(graph, order) of the behaviour TLC printed when it refuted an invariant of Canon.tla."""
+    m = re.findall(r"/\\ g = (<<.*?>>)\n/\\ \w+ =", out, re.S)
+    if not m:
+        return None
+    txt = m[-1]
+    g = []
+    for nd in re.findall(r"\[k \|-> \"(\w+)\", n \|-> (\d+), d \|-> (\w+), kids \|-> <<([\d, ]*)>>\]", txt):
+        g.append({"k": nd[0], "n": int(nd[1]), "d": nd[2] == "TRUE", "kids": [int(x) for x in nd[3].replace(" ", "").split(",") if x]})
+    order = [int(x) for x in re.findall(r"^State \d+: <BeginCanon\((\d+)\)", out, re.M)]
+    order += [i for i in range(1, len(g) + 1) if i not in order]          # TLC stops at the first quiescent state that violates: finish the run
+    return (g, order) if g and all(nd["k"] == "struct" for nd in g) else None
+
+
 # ------------------------------------------------------------------------------------------------ main
 def main():
     import time
@@ -254,7 +296,7 @@ def main():
 
     # ---- binaries: generated programs x compilers x translation-unit splits, hand-written samples x compilers
     comps = ["gcc", "clang", "gcc-dwarf4", "clang-dwarf5"] if c.thorough else ["gcc", "clang"]
-    progs = [p for p in campaign.programs(c, 900 if c.thorough else 70, MaxTypes=9, MaxMembers=3, MaxIfaces=5) if campaign.nontrivial_program(p)]
+    progs = [p for p in campaign.programs(c, 900 if c.thorough else 56, MaxTypes=9, MaxMembers=3, MaxIfaces=5) if campaign.nontrivial_program(p)]
     jobs = []
     for i, p in enumerate(progs):
         for comp in comps:
@@ -289,7 +331,7 @@ def main():
     mark("campaign")
 
     # ---- every graph of the model, rendered as ABIXML (the replay of the design-level counterexamples)
-    graphs, ngraphs = model_graphs(c, 3000 if c.thorough else 400)
+    graphs, ngraphs = model_graphs(c, 3000 if c.thorough else 300)
     gdir = os.path.join(c.workdir, "graphs")
     os.makedirs(gdir, exist_ok=True)
 
@@ -311,13 +353,43 @@ def main():
     res += vf.pmap(one_graph, list(enumerate(graphs)), jobs=max(2, vf.JOBS // 2))
     mark("graphs")
 
+    # ---- the same graphs through the IR constructors, canonicalize() called in an order of the model's choosing; and the
+    #      behaviour with which TLC refuted the algorithm as coded: the real library must go wrong on it too
+    canonapi = vf.build_harness("hooks", "canonapi")
+    api_graphs = [g for g in graphs if all(nd["k"] == "struct" for nd in g)]
+
+    def one_api(ig):
+        i, g, order, case = ig
+        ld, why = api_run(canonapi, g, order, case, h5on, gdir)
+        if ld is None:
+            return ("discard", "api-graph-" + why, case)
+        execs, dropped = executions(case, ld[0], ld[1])
+        return ("ok", execs, dropped, [], case, {"graph": ld[2], "order": order}, len(ld[0]["types"]), len(ld[1] or []))
+    api_jobs = []
+    for i, g in enumerate(api_graphs * (4 if c.thorough else 2)):
+        order = list(range(1, len(g) + 1))
+        __import__("random").Random(c.seed * 104729 + i).shuffle(order)
+        api_jobs.append((i, g, order, "api%d" % i))
+    res += vf.pmap(one_api, api_jobs, jobs=max(2, vf.JOBS // 2))
+    cex = getattr(c, "as_coded_counterexample", None)
+    c.cov["as_coded_counterexample"] = {"graph": cex[0], "order": cex[1]} if cex else None
+    if cex:
+        r = one_api((0, cex[0], cex[1], "tlc-counterexample-as-coded"))
+        if r[0] == "ok":
+            v = vf.tlc_validate("CanonTrace.tla", "CanonTrace.cfg", [dict(e, case="tlc-counterexample-as-coded") for e in r[1][0][:2]])
+            # rejected: the library has the defect the model has as coded (reported below with the other events);
+            # accepted: the library no longer behaves as CanonAsCoded.cfg describes it in this respect (repaired)
+            c.cov["as_coded_counterexample"]["rejected_on_the_real_library"] = not v["accepted"]
+            res.append(r)
+    mark("api")
+
     execs, dbg, paths = [], [], {}
     nt, nh5, recursive = 0, 0, 0
     for r in res:
         if r[0] == "discard":
             c.discard(r[1])
-        elif r[0] == "bad":
-            c.violation("the harness could not load %s (%s)" % (r[2], r[1]), payload=campaign.case_files(os.path.dirname(r[3])))
+        elif r[0] == "bad":                     # a crash of the reader is C33-C35's business, not C20's
+            c.discard("harness-could-not-load:" + r[1])
         else:
             execs += r[1]
             if r[2]:
@@ -343,9 +415,10 @@ def main():
         return len(sigs) != len(set(sigs))
     c.cov["distinct_nontrivial"] = sum(1 for ex in execs if interesting(ex))
     c.cov["rule"] = ("type graphs loaded from %d TLC-generated programs x %s x 1-3 translation units, %d hand-written multi-TU samples x compilers, and %d of the %d "
-                     "type graphs of Canon.tla's generator bounds rendered as ABIXML; one evaluation = one dump (<= %d types) judged by TLC, or one run of the "
+                     "type graphs of Canon.tla's generator bounds rendered as ABIXML, and %d (graph, canonicalization order) behaviours of the model replayed through the IR "
+                     "constructors and canonicalize() (harness/canonapi.cc); one evaluation = one dump (<= %d types) judged by TLC, or one run of the "
                      "library's own debug check; non-trivial = the dump holds at least two same-named struct/union definitions"
-                     % (len(progs), comps, len(samples), len(graphs), ngraphs, MAXT))
+                     % (len(progs), comps, len(samples), len(graphs), ngraphs, len(api_jobs), MAXT))
     for ex in execs[:1]:
         c.sample({"case": ex[1]["case"], "types": ex[1]["types"][:6], "h5": [e for e in ex[2:8]]}, limit=2)
     for e in dbg[:2]:
@@ -355,10 +428,12 @@ def main():
         case = str(ev.get("case", "")).split("/")[0]
         p = paths.get(case)
         pl = {"event.case": case}
-        if p and p.endswith(".abi"):
+        if isinstance(p, dict):
+            pl["api.json"] = p
+        elif p and p.endswith(".abi"):
             pl["graph.abi"] = open(p).read()
         elif p:
-            pl.update(campaign.case_files(os.path.dirname(os.path.dirname(p)) if "/p" in p else os.path.dirname(p)))
+            pl.update(campaign.case_files(os.path.dirname(p)))
         return pl
 
     # case attribution for stateful events: give every event of an execution the execution's case
@@ -372,7 +447,18 @@ def main():
     vf.pmap(lambda evs: c.validate("CanonTrace.tla", "CanonTrace.cfg", evs, case_of=case_of, traces=sum(1 for e in evs if e["e"] == "Reset")), shards, jobs=8)
     if dbg:
         c.validate("CanonTrace.tla", "CanonTrace.cfg", dbg, case_of=case_of)
+    good = [ex for ex in execs if str(ex[1]["case"]).startswith("recursive_identical") and len(ex) > 10]
+    if good:
+        selftest(c, good[0])
+    elif h5on:
+        vf.infra("no execution suitable for the trace-specification self-test")
     mark("validation")
+    classes = {}
+    for what, d in c.violations:                       # what TLC rejected, by verdict (positions / modes stripped)
+        m = re.search(r"\((bad:[a-z=A-Z-]+|no-step)", what)
+        k = m.group(1) if m else what[:60]
+        classes[k] = classes.get(k, 0) + 1
+    c.cov["rejections_by_verdict"] = classes
     c.cov["phase_s"] = phase
     c.assumptions += [
         "structural equality = greatest bisimulation over the local attributes the equals() overloads of src/abg-ir.cc compare (irdump.cc documents them per kind); "
@@ -386,14 +472,86 @@ def main():
     c.finish()
 
 
+def selftest(c, good):
+    """Converse binding: corrupt one recorded fact of an accepted execution at a time; TLC must reject every variant."""
+    variants = []
+
+    def variant(name, f):
+        evs = json.loads(json.dumps(good))
+        try:
+            evs = f(evs) or evs
+        except (IndexError, StopIteration, KeyError):
+            return
+        variants.append((name, evs))
+
+    def merge_structs(v):       # two structurally different structs given one canonical type
+        ts = v[1]["types"]
+        st = [i for i, t in enumerate(ts) if t["k"] == "struct" and not t["decl"] and t["canon"] == i + 1]
+        a, b = next((a, b) for a in st for b in st if a < b and ts[a]["sig"] != ts[b]["sig"])
+        ts[b]["canon"] = a + 1
+
+    def split_pointers(v):      # two equal types given different canonical types
+        ts = v[1]["types"]
+        i = next(i for i, t in enumerate(ts) if t["canon"] not in (0, i + 1))
+        ts[i]["canon"] = i + 1
+    idx = lambda v, name, k=0: [i for i, e in enumerate(v) if e["e"] == name][k]
+
+    def flip_compare(v):
+        i = next(i for i, e in enumerate(v) if e["e"] == "Compare" and e["tp"] and e["cp"])
+        v[i]["r"] = not v[i]["r"]
+
+    def drop_end(v):
+        del v[idx(v, "CanonEnd", 3)]
+
+    def propagate_onto_canonical(v):
+        i = idx(v, "CanonEnd", 2)
+        v.insert(i + 1, {"e": "Propagate", "t": v[i]["t"], "c": v[i]["c"], "k": v[i]["c"], "tp": 0, "cp": 0})
+
+    def lose_canonical(v):
+        ts = v[1]["types"]
+        i = next(i for i in v[1]["roots"] if ts[i - 1]["k"] == "struct" and not ts[i - 1]["decl"])
+        ts[i - 1]["canon"] = 0
+    variant("two different structs share a canonical type", merge_structs)
+    variant("an equal type gets its own canonical type", split_pointers)
+    variant("a Compare result flipped", flip_compare)
+    variant("a CanonEnd dropped", drop_end)
+    variant("Propagate onto a type that has a canonical type", propagate_onto_canonical)
+    variant("a reachable struct without canonical type", lose_canonical)
+    evs, bounds = [], []
+    for name, v in variants:
+        bounds.append((len(evs) + 1, len(evs) + len(v), name))
+        evs += v
+    r = vf.tlc_validate("CanonTrace.tla", "CanonTrace.cfg", evs)
+    rejected = set(name for (i, e, v) in r["bad"] for (lo, hi, name) in bounds if lo <= i <= hi)
+    missed = [name for (lo, hi, name) in bounds if name not in rejected]
+    c.cov["trace_spec_selftest"] = {"corrupted_variants": len(variants), "rejected": len(rejected)}
+    if missed or len(variants) < 4:
+        vf.infra("CanonTrace accepts corrupted executions: %s (variants built: %d)" % (missed, len(variants)))
+
+
 def replay(path):
     ev = json.load(open(os.path.join(path, "event.json")))["event"]
+    if ev and ev.get("e") == "DebugRun":
+        return vf.replay_event("CanonTrace.tla", "CanonTrace.cfg", path)
     vf.build("hooks")
     irdump = vf.build_harness("hooks", "irdump")
     srcs = sorted(fn for fn in os.listdir(path) if fn.endswith(".c"))
     work = os.path.join(vf.WORK, "C20-replay")
     shutil.rmtree(work, ignore_errors=True)
     os.makedirs(work)
+    if os.path.exists(os.path.join(path, "api.json")):
+        a = json.load(open(os.path.join(path, "api.json")))
+        canonapi = vf.build_harness("hooks", "canonapi")
+        g = [{"n": 1 + "ABab".index(x.split(":")[0]) % 2, "d": x[0] in "ab", "kids": [int(k) for k in x.split(":")[1].split(",") if k]} for x in a["graph"].split(";")]
+        ld, why = api_run(canonapi, g, a["order"], "replay", has_h5(), work)
+        if ld is None:
+            print("rejected: " + why)
+            return 1
+        execs, _ = executions("replay", ld[0], ld[1])
+        r = vf.tlc_validate("CanonTrace.tla", "CanonTrace.cfg", [e for ex in execs for e in ex])
+        print(a)
+        print("accepted" if r["accepted"] else "rejected: %s" % ([(i, v) for (i, e, v) in r["bad"]],))
+        return 0 if r["accepted"] else 1
     if os.path.exists(os.path.join(path, "graph.abi")):
         target = os.path.join(work, "graph.abi")
         shutil.copy(os.path.join(path, "graph.abi"), target)
